@@ -51,7 +51,7 @@ def gen_plan(r, tier):
             # for an in-flight connection): sent in its own segment after a pause, before the first response is read
             if kd == "slow" and i not in failadd and len(queues[i]) >= 3 and queues[i][1][0] == "s" and r.random() < 0.5:
                 nxt = queues[i].pop(1)
-                steps.append("w")
+                steps.append("y%d" % i)   # the slow handler of this request is running (its head has been read): no pipelining
                 steps.append("s%d:%s" % (i, hx(REQ[nxt[1]][0])))
         else:
             steps.append("r%d" % i)
